@@ -61,7 +61,9 @@ def project(g, keep_scratch=True):
                          _small(d.get("chg")), _small(d.get("partition"), -1))
         if None in (z, m, r, c, p) or not isinstance(d.get("element_symbol"), str):
             return {"bad": "atom %d has non-integer / oversized identity attributes: %r" % (lab, d)}
-        atoms.append({"z": z, "sym": d["element_symbol"], "m": m, "r": r, "c": c,
+        xyz = [repr(float(d[k])) if isinstance(d.get(k), (int, float)) and not isinstance(d.get(k), bool) else "" for k in
+               ("x_coord", "y_coord", "z_coord")]
+        atoms.append({"z": z, "sym": d["element_symbol"], "m": m, "r": r, "c": c, "x": xyz[0], "y": xyz[1], "z_": xyz[2],
                       "hm": "mass" in d, "hr": "rad" in d, "hc": "chg" in d, "p": p,
                       "tag": _small(d.get(TAG)) or 0,
                       "attr": render_attrs(d, skip=("partition",)),
@@ -71,7 +73,8 @@ def project(g, keep_scratch=True):
         if a == b:
             return {"bad": "self loop at %r" % a}
         lo, hi = (a, b) if a < b else (b, a)
-        edges.append([lo, hi, render_attrs(d)])
+        bt = d.get("bond_type")
+        edges.append([lo, hi, render_attrs(d), bt if isinstance(bt, int) and not isinstance(bt, bool) and abs(bt) < 2**30 else -1])
     edges.sort()
     adj = [sorted(g.neighbors(lab)) for lab in range(n)]
     return {"n": n, "atoms": atoms, "adj": adj, "order": nodes, "edges": edges}
